@@ -44,7 +44,7 @@ NOT_APPLICABLE = {
 }
 
 # /repo commits that add guarded hooks (cfg log4rs_verif)
-HOOK_COMMITS = ['5a2703e', '057fc64', '8991438', 'db83ae1', 'e6cb540', '32ad153', 'e8650e2', '576c8c7', '543b0d5', '0f2b23c', '0e5799d', '5cc9e68', '86dd40b', '7b40c7c', '1e620db', 'f1a4822', 'f6a74ef', '311bbd6', '0315d07', '053d572', '1880721', '9c5ec54']
+HOOK_COMMITS = ['5a2703e', '057fc64', '8991438', 'db83ae1', 'e6cb540', '32ad153', 'e8650e2', '576c8c7', '543b0d5', '0f2b23c', '0e5799d', '5cc9e68', '86dd40b', '7b40c7c', '1e620db', 'f1a4822', 'f6a74ef', '311bbd6', '0315d07', '053d572', '1880721', '9c5ec54', '898704b']
 
 PROPS["C03"] = dict(
     functions=[
@@ -977,3 +977,6 @@ PROPS["C08"]["assumptions"] = list(PROPS["C08"]["assumptions"]) + _fs_assumption
 PROPS["C08"]["outside"] = ("at the appender level: that the failing append RETURNS an error (the harness policy leaves the file in place without reporting it: constructing "
                            "the anyhow error exhausts 14 GB, DESIGN.md 9.8), a restarted appender, pre-processing policies; at the roller level: counts above 3, base > 0, the "
                            "copy+remove fallback failing half way, compression, the background thread")
+
+# c11_date::* ({d(%x)} with a symbolic directive letter through From<Piece> for Chunk and chrono's StrftimeItems): 25 min
+# without an answer (two-way searchers over the heap-built format string) - not registered; the module and its hook stay.
